@@ -1,4 +1,5 @@
 import ZbossModel.Proofs.HostAck
+import ZbossModel.Proofs.NcpWire
 /-! # C11 - any request reaches the NCP intact, fragments contiguous, each awaiting its ACK
 
 Phases `sendfrag … acked` are the transmission of a message: from taking the message lock M to
@@ -177,3 +178,74 @@ example : ((runEvents {} [.start 1 4 false 2 3013, .start 2 4 false 2 5026, .rxA
     [[.write 1 0 0 2], [], [.write 1 1 1 2], [.write 2 0 2 2], [.write 2 1 3 2], []] := by decide +kernel
 
 end Zboss.Host
+
+/-! # the first sentence of C11 at the wire: what a protocol-following NCP receives -/
+namespace Zboss.Reasm
+open Zboss.Rx Zboss
+
+/-- **an NCP that follows the link protocol receives exactly the request**: the host cuts a message that does not fit
+    one frame into fragments, stamps each with whatever sequence number is current and writes them - by `C11_trace`
+    with no data frame of another message in between, but possibly with acknowledgement frames for incoming traffic
+    interleaved.  A peer that checks every signature, type, length and checksum (`_extract_frame`), ignores
+    acknowledgements, and concatenates first..last fragments (`frame_received`) hands up exactly the fragments and
+    reassembles exactly the command header and parameter bytes of the request - under every chunking of the byte
+    stream and whatever stale fragments of an abandoned message were pending. -/
+theorem C11_ncp_sees_request (hnd : Frame → Bool) (tr : Bool) (h : HLH) (hh : h ≠ 0#32) (data : Bytes)
+    (hbig : Gen.bodyMax < (HLPacket.mk (some h) data).body.length) (ws : List Frame)
+    (hst : Stamped (Frag.fragments (Frag.whole ⟨some h, data⟩) ⟨some h, data⟩) ws)
+    (ws' : List Frame) (hwa : WithAcks ws ws')
+    (chunks : List Bytes) (hchunks : chunks.flatten = (ws'.map Frame.serialize).flatten) (pending : List Frame) :
+    deliveredOf (session hnd { transport := tr } chunks).2 = ws ∧
+    (feedFrames pending ws).1 = [] ∧
+    (feedFrames pending ws).2.getLast? = some (Outcome.msg ⟨some h, data⟩) := by
+  have hwire := fragments_wireOK h hh data hbig
+  have hdec := decodes_stamped _ ws hst hwire
+  obtain ⟨h1, h2, h3⟩ := C10_wire_loopback hnd tr h hh data hbig ws hst [(ws.map Frame.serialize).flatten] (by simp) pending
+  refine ⟨?_, h2, h3⟩
+  -- every fragment is a data frame with a packet: that is what the loop-back theorem says about the plain train
+  have hgood : ∀ w ∈ ws, good w = true := by
+    rw [C01_chunking] at h1
+    simp only [List.flatten_cons, List.flatten_nil, List.append_nil] at h1
+    rw [run_decodes ws hdec, deliveredOf_filter] at h1
+    exact fun w hw => (List.filter_eq_self.mp h1) w hw
+  rw [C01_chunking, hchunks, run_decodes ws' (withAcks_decodes ws ws' hwa hdec), deliveredOf_filter]
+  exact withAcks_filter ws ws' hwa hgood
+
+/-- … and a request that fits one frame: the frame built by `to_frame`, stamped with whatever number is current and
+    written - possibly with acknowledgement frames around it - is handed up as it is, and its command header and
+    parameter bytes are passed on unchanged, whatever stale fragments were pending -/
+theorem C11_ncp_sees_small_request (hnd : Frame → Bool) (tr : Bool) (h : HLH) (hh : h ≠ 0#32) (data : Bytes)
+    (hsmall : (HLPacket.mk (some h) data).serialize.length + 5 ≤ 65535) (s : Fin 4)
+    (ws' : List Frame) (hwa : WithAcks [Frame.stamp s.val (Frag.whole ⟨some h, data⟩)] ws')
+    (chunks : List Bytes) (hchunks : chunks.flatten = (ws'.map Frame.serialize).flatten) (pending : List Frame) :
+    deliveredOf (session hnd { transport := tr } chunks).2 = [Frame.stamp s.val (Frag.whole ⟨some h, data⟩)] ∧
+    frameReceived pending (Frame.stamp s.val (Frag.whole ⟨some h, data⟩)) = ([], .msg ⟨some h, data⟩) := by
+  have hfl := stamped_flags 0xC0 s (Frag.whole ⟨some h, data⟩) (by simp [Frag.whole, Frame.mkData]; decide) (by simp)
+  have hflags : ∀ t : Fin 4, Frame.hasFlag (wireFlags (Gen.flagLastFrag ||| Gen.flagFirstFrag) t.val) Gen.flagisACK = false ∧
+      Frame.hasFlag (wireFlags (Gen.flagLastFrag ||| Gen.flagFirstFrag) t.val) Gen.flagFirstFrag = true := by decide
+  have hdec : ∀ w ∈ [Frame.stamp s.val (Frag.whole ⟨some h, data⟩)], Decodes w := by
+    intro w hw
+    simp only [List.mem_singleton] at hw; subst hw
+    intro r
+    have := tryFrame_built_first (Gen.flagLastFrag ||| Gen.flagFirstFrag) s.val _ h data r hh rfl hsmall
+      (hflags s).1 (hflags s).2
+    unfold Frag.whole
+    rw [this]
+    have hl := (C05_frame_wf (Gen.flagLastFrag ||| Gen.flagFirstFrag) s.val _ ⟨some h, data⟩ rfl hsmall).2
+    rw [hl]
+  have hgood : ∀ w ∈ [Frame.stamp s.val (Frag.whole ⟨some h, data⟩)], good w = true := by
+    intro w hw
+    simp only [List.mem_singleton] at hw; subst hw
+    have h1 := hfl.2.2
+    have h2 : (Frame.stamp s.val (Frag.whole ⟨some h, data⟩)).hl.isSome = true := by rw [stamp_hl]; rfl
+    simp [good, h1, h2]
+  refine ⟨?_, ?_⟩
+  · rw [C01_chunking, hchunks, run_decodes ws' (withAcks_decodes _ ws' hwa hdec), deliveredOf_filter]
+    exact withAcks_filter _ ws' hwa hgood
+  · exact C10_restart pending _ ⟨some h, data⟩ (by rw [stamp_hl]; rfl) ⟨by rw [hfl.1]; decide, by rw [hfl.2.1]; decide⟩
+
+/-! ## non-vacuity: the hypotheses hold for every message - stamp the fragments (any numbers), put an ACK in between -/
+example (f g : Frame) : WithAcks [f, g] [f, Frame.ack 2 false, g, Frame.ack 0 true] :=
+  .frame f (.ack 2 false (.frame g (.ack 0 true .nil)))
+
+end Zboss.Reasm
